@@ -16,6 +16,7 @@ import sympy as sp
 from ..core import Check, AnalysisError
 from .. import repoindex as ri
 from ..drivers import Harness, vkey, tagvec, RK, SY
+from ..regions import RegionDecider
 from ..kpe import Interp, SymObj, ClassRef, FuncRef, to_obj_array, S, OutsideFragment, KpeRaise
 from ..rk_extract import Recorder
 from . import drv
@@ -39,6 +40,7 @@ def run(tier):
                        what="hand-rolled caches of compiled right-hand sides")
     _a_closures(chk)
     _b_hamilton(chk)
+    _b_storage(chk)
     _c_step_kernels(chk)
     _c_dense_cache(chk)
     _c_drivers(chk, tier)
@@ -275,6 +277,40 @@ def _b_hamilton(chk):
     except OutsideFragment as exc:
         chk.note(f"_polynomial_jacobian not analysable in isolation ({exc}); covered by C06")
     chk.count("functions partially evaluated", 6)
+
+
+def _b_storage(chk):
+    """The system object keeps every block of the polynomial Jacobian (and every layout table) exactly as built: the
+    right-hand side, the separate evaluators and the symplectic integrator all read these stored blocks."""
+    mod, cls = ri.find_def(DH, "_HamiltonianSystem")
+    # variables 2 and 5 have a vanishing degree-1 block (they enter the Hamiltonian only at higher degree)
+    blocks = [[to_obj_array([sp.Symbol(f"j{v}_{d}_{k}") if not (d == 1 and v in (2, 5)) else sp.Integer(0) for k in range(2)]) for d in range(3)] for v in range(6)]
+    cl = [sp.Symbol("c0"), sp.Symbol("c1"), sp.Symbol("c2")]
+    got = {}
+
+    def jac(ip_, a, k):
+        got["args"] = list(a)
+        return [[b.copy() for b in var] for var in blocks]
+
+    # data-dependent tests are decided at a generic point: every symbolic coefficient is a distinct non-zero number
+    rep = {}
+    for v in range(6):
+        for d in range(3):
+            for k, x in enumerate(blocks[v][d]):
+                if isinstance(x, sp.Symbol):
+                    rep[x] = sp.Rational(1 + 7 * v + 3 * d + k, 11)
+    ip = Interp(overrides={"_polynomial_jacobian": jac, "_validate_polynomial_data": lambda ip_, a, k: None}, decide=RegionDecider(rep))
+    HB = sp.Symbol("H_BLOCKS")
+    obj = ip.apply(ClassRef(mod, cls), [HB, 2, sp.Symbol("psi"), list(cl), sp.Symbol("enc"), 3], {})
+    st = obj.attrs.get("jac_H")
+    same = st is not None and len(st) == 6 and all(len(st[v]) == 3 and all(list(to_obj_array(st[v][d]).ravel()) == list(blocks[v][d]) for d in range(3)) for v in range(6))
+    chk.check(same, "C17.b", f"{DH}::_HamiltonianSystem.__init__[storage]",
+              "jac_H stored on the system is not the polynomial Jacobian block for block (a variable that enters only at degree >= 3 must keep its blocks)",
+              sample="jac_H[v][d] == _polynomial_jacobian(H_blocks, ...)[v][d] for all v, d (incl. variables with a zero linear block)")
+    a = got.get("args", [])
+    chk.check(a[:2] == [HB, 2] and list(obj.attrs.get("clmo_H", [])) == cl and obj.attrs.get("_n_dof") == 3, "C17.b", f"{DH}::_HamiltonianSystem.__init__[wiring]",
+              f"Jacobian is not built from (H_blocks, degree) or clmo_H / n_dof are not stored as given: {a[:2]}", sample="jac_H = jacobian(H_blocks, degree, ...); clmo_H = clmo_table")
+    chk.count("functions partially evaluated")
 
 
 # ------------------------------------------------------------------------------------------------ c (term mode)
